@@ -232,7 +232,7 @@ func c06Ed25519Ops() []h.DiffOp {
 				c.PutN(n)
 				c.PutB(h.UniformBytes(t, 8, "seed"))
 				c.PutN(rapid.IntRange(-1, n).Draw(t, "corrupt")) // index of a corrupted entry, -1/n = none
-				c.PutN(rapid.IntRange(0, 3).Draw(t, "mode"))    // bit0: ForceNoPublicKeyExpansion, bit1: with capacity
+				c.PutN(rapid.IntRange(0, 3).Draw(t, "mode"))     // bit0: ForceNoPublicKeyExpansion, bit1: with capacity
 				ne := rapid.IntRange(0, 2).Draw(t, "edge")
 				c.PutN(ne)
 				for i := 0; i < ne; i++ {
